@@ -20,13 +20,13 @@ import (
 	"context"
 	"encoding/json"
 	"fmt"
-	"hash/fnv"
 	"math/big"
 	"sort"
 	"strings"
 	"testing"
 
 	jsonpatch "github.com/evanphx/json-patch"
+	jsonpatchv2 "gomodules.xyz/jsonpatch/v2"
 	admissionv1 "k8s.io/api/admission/v1"
 	corev1 "k8s.io/api/core/v1"
 	"k8s.io/apimachinery/pkg/api/resource"
@@ -219,7 +219,7 @@ func c14NewWebhook() *c14Webhook {
 
 // admit sends the pod as a CREATE admission request through the complete real Handle and applies the returned JSON
 // patch, i.e. returns the pod the API server would store.
-func (w *c14Webhook) admit(pod *corev1.Pod) (*corev1.Pod, error) {
+func (w *c14Webhook) admit(pod *corev1.Pod, fast bool) (*corev1.Pod, error) {
 	raw, err := json.Marshal(pod)
 	if err != nil {
 		return nil, err
@@ -239,6 +239,11 @@ func (w *c14Webhook) admit(pod *corev1.Pod) (*corev1.Pod, error) {
 	if len(resp.Patches) == 0 {
 		return pod, nil
 	}
+	if fast {
+		if out := c14ApplyAnnotationPatch(pod, resp.Patches); out != nil {
+			return out, nil
+		}
+	}
 	pb, err := json.Marshal(resp.Patches)
 	if err != nil {
 		return nil, err
@@ -256,6 +261,44 @@ func (w *c14Webhook) admit(pod *corev1.Pod) (*corev1.Pod, error) {
 		return nil, err
 	}
 	return out, nil
+}
+
+// c14ApplyAnnotationPatch applies a JSON patch that consists only of add/replace operations on metadata.annotations
+// (the whole map or one key) to a copy of the pod. It returns nil when the patch contains anything else; the caller
+// then takes the generic route.
+func c14ApplyAnnotationPatch(pod *corev1.Pod, ops []jsonpatchv2.JsonPatchOperation) *corev1.Pod {
+	out := pod.DeepCopy()
+	const base = "/metadata/annotations"
+	for _, op := range ops {
+		if op.Operation != "add" && op.Operation != "replace" {
+			return nil
+		}
+		switch {
+		case op.Path == base:
+			m, ok := op.Value.(map[string]interface{})
+			if !ok {
+				return nil
+			}
+			out.Annotations = map[string]string{}
+			for k, v := range m {
+				sv, ok := v.(string)
+				if !ok {
+					return nil
+				}
+				out.Annotations[k] = sv
+			}
+		case strings.HasPrefix(op.Path, base+"/") && !strings.Contains(op.Path[len(base)+1:], "/"):
+			sv, ok := op.Value.(string)
+			if !ok || out.Annotations == nil {
+				return nil
+			}
+			key := strings.ReplaceAll(strings.ReplaceAll(op.Path[len(base)+1:], "~1", "/"), "~0", "~")
+			out.Annotations[key] = sv
+		default:
+			return nil
+		}
+	}
+	return out
 }
 
 // ---------------------------------------------------------------------------------------------------------------
@@ -396,16 +439,27 @@ func (k c14Consts) quotaTarget(milli int64, r *c14Rule) (N, D int64, lifted bool
 	return N, D, false
 }
 
+// roundingUnit is the rounding granularity accepted where a division is involved: the quota of one milli-CPU
+// (period/1000 microseconds; the declared amounts are whole milli-CPUs), at least one microsecond.
+func (k c14Consts) roundingUnit() int64 {
+	if u := k.period / 1000; u > 1 {
+		return u
+	}
+	return 1
+}
+
 // quotaOK judges an observed limited quota v against the target. Without a division the kubelet formula is exact
-// (floor of milli*period/1000, minimum clamp). With a division the statement does not fix the rounding direction:
-// the closed band of one unit around the exact quotient is accepted, never below the kernel minimum.
+// (floor of milli*period/1000, minimum clamp). With a division the statement fixes neither the rounding direction
+// nor whether the quotient is rounded as milli-CPUs or as microseconds: the closed band of one rounding unit around
+// the exact quotient is accepted, never below the kernel minimum.
 func (k c14Consts) quotaOK(v, milli int64, r *c14Rule) (ok bool, want string) {
 	N, D, _ := k.quotaTarget(milli, r)
 	if !r.divides() {
 		exp := N / D
 		return v == exp, fmt.Sprint(exp)
 	}
-	want = fmt.Sprintf("%d/%d (=%.3f) +-1, >= %d", N, D, float64(N)/float64(D), k.minQuota)
+	u := k.roundingUnit()
+	want = fmt.Sprintf("%d/%d (=%.3f) +-%d, >= %d", N, D, float64(N)/float64(D), u, k.minQuota)
 	if v < k.minQuota || v > 1<<50 {
 		return false, want
 	}
@@ -413,7 +467,7 @@ func (k c14Consts) quotaOK(v, milli int64, r *c14Rule) (ok bool, want string) {
 	if d < 0 {
 		d = -d
 	}
-	return d <= D, want
+	return d <= D*u, want
 }
 
 func c14Pos(v int64) int64 { // a non-declared or non-positive amount counts as nothing
@@ -492,8 +546,34 @@ func (j *c14Judge) violate(key, what string) {
 
 const c14Unl int64 = -1
 
-// judge applies the oracle to one executed (pod, marking, rule, path). It returns the outcome-class digest input.
-func (j *c14Judge) judge(r *c14Rule) (class string, nontrivial bool) {
+// c14Mix folds values into an FNV-1a style digest.
+func c14Mix(h uint64, vs ...int64) uint64 {
+	for _, v := range vs {
+		for b := 0; b < 8; b++ {
+			h ^= uint64(byte(v >> (8 * b)))
+			h *= 1099511628211
+		}
+	}
+	return h
+}
+
+func c14MixS(h uint64, s string) uint64 {
+	for i := 0; i < len(s); i++ {
+		h ^= uint64(s[i])
+		h *= 1099511628211
+	}
+	return h
+}
+
+func c14V(p *int64) int64 {
+	if p == nil {
+		return -7
+	}
+	return *p
+}
+
+// judge applies the oracle to one executed (pod, marking, rule, path). It returns the digest of the outcome class.
+func (j *c14Judge) judge(r *c14Rule) (class uint64, nontrivial bool) {
 	k, c := j.k, j.c
 	j.cnt[kJudged]++
 	n := len(c.Ctrs)
@@ -528,7 +608,7 @@ func (j *c14Judge) judge(r *c14Rule) (class string, nontrivial bool) {
 		if j.nv == 0 {
 			j.cnt[kNotBETouchedNever]++
 		}
-		return "", false
+		return 0, false
 	}
 	usesBatch := false
 	for _, ct := range c.Ctrs {
@@ -537,10 +617,9 @@ func (j *c14Judge) judge(r *c14Rule) (class string, nontrivial bool) {
 	if !usesBatch {
 		// a BE pod that uses no reclaimed resource: the statement makes no claim
 		j.cnt[kBEWithoutBatch]++
-		return "", false
+		return 0, false
 	}
-	var cls strings.Builder
-	fmt.Fprintf(&cls, "%s|%s|%s|n%d", c.Mark, c.Path, r.Name, n)
+	cls := c14MixS(c14MixS(c14MixS(14695981039346656037, c.Mark), c.Path), r.Name)
 	if j.pod.Other {
 		j.violate("pod|other-field-set", "a field other than cpu shares / cfs quota / memory limit was set in the pod response")
 	}
@@ -552,7 +631,7 @@ func (j *c14Judge) judge(r *c14Rule) (class string, nontrivial bool) {
 	effQuota := make([]int64, n) // effective values; for a container that declares nothing and was left as the
 	effMem := make([]int64, n)   // kubelet made it, that is the best-effort default: min shares, no quota, no limit
 	effShares := make([]int64, n)
-	ctrCls := make([]string, n)
+	ctrCls := make([]uint64, n)
 	primaryQuotaBad, primaryMemBad, primarySharesBad := false, false, false
 	for i, ct := range c.Ctrs {
 		o := j.ctrs[i]
@@ -591,7 +670,7 @@ func (j *c14Judge) judge(r *c14Rule) (class string, nontrivial bool) {
 		// quota
 		nv0 = j.nv
 		effQuota[i] = c14Unl
-		qc := "U"
+		qc := int64(0) // quota class bits: 1 limited, 2 ratio-divided, 4 raised to the minimum
 		if o.Quota != nil {
 			effQuota[i] = *o.Quota
 		}
@@ -608,15 +687,15 @@ func (j *c14Judge) judge(r *c14Rule) (class string, nontrivial bool) {
 			}
 		} else if o.Quota != nil {
 			j.cnt[kCtrQuotaLimited]++
-			qc = "L"
+			qc = 1
 			_, _, lifted := k.quotaTarget(ct.Lim, r)
 			if r.divides() {
 				j.cnt[kCtrQuotaRatioDivided]++
-				qc += "r"
+				qc |= 2
 			}
 			if lifted {
 				j.cnt[kCtrQuotaMinClamp]++
-				qc += "m"
+				qc |= 4
 			}
 			v := *o.Quota
 			if ok, want := k.quotaOK(v, ct.Lim, r); !ok {
@@ -636,7 +715,7 @@ func (j *c14Judge) judge(r *c14Rule) (class string, nontrivial bool) {
 		// memory
 		nv0 = j.nv
 		effMem[i] = c14Unl
-		mcl := "U"
+		mcl := int64(0)
 		if o.Mem != nil {
 			effMem[i] = *o.Mem
 		}
@@ -647,7 +726,7 @@ func (j *c14Judge) judge(r *c14Rule) (class string, nontrivial bool) {
 			}
 		} else if o.Mem != nil {
 			j.cnt[kCtrMemLimited]++
-			mcl = "L"
+			mcl = 1
 			if *o.Mem != ct.Mem {
 				if *o.Mem == c14Unl {
 					j.violate("container|memory|unlimited-although-declared", fmt.Sprintf("c%d: memory unlimited although a limit of %d bytes is declared", i, ct.Mem))
@@ -657,7 +736,11 @@ func (j *c14Judge) judge(r *c14Rule) (class string, nontrivial bool) {
 			}
 		}
 		primaryMemBad = primaryMemBad || j.nv != nv0
-		ctrCls[i] = fmt.Sprintf("s%d,q%s,m%s,d%v", effShares[i], qc, mcl, !ct.declaresNothing())
+		dn := int64(0)
+		if ct.declaresNothing() {
+			dn = 1
+		}
+		ctrCls[i] = c14Mix(14695981039346656037, effShares[i], qc, mcl, dn)
 	}
 
 	// --- pod level: the same conversions on the sums; unlimited as soon as one container is unlimited
@@ -693,7 +776,7 @@ func (j *c14Judge) judge(r *c14Rule) (class string, nontrivial bool) {
 			j.violate("pod|shares|value", fmt.Sprintf("pod cpu shares %d, standard conversion of the summed requests (%d milli) is %d", *j.pod.Shares, sumReq, exp))
 		}
 	}
-	pq := "U"
+	pq := int64(0)
 	if j.pod.Quota != nil {
 		v := *j.pod.Quota
 		switch {
@@ -714,15 +797,15 @@ func (j *c14Judge) judge(r *c14Rule) (class string, nontrivial bool) {
 			}
 		default:
 			j.cnt[kPodQuotaLimited]++
-			pq = "L"
+			pq = 1
 			_, _, lifted := k.quotaTarget(sumLim, r)
 			if r.divides() {
 				j.cnt[kPodQuotaRatioDivided]++
-				pq += "r"
+				pq |= 2
 			}
 			if lifted {
 				j.cnt[kPodQuotaMinClamp]++
-				pq += "m"
+				pq |= 4
 			}
 			if ok, want := k.quotaOK(v, sumLim, r); !ok {
 				primaryQuotaBad = true
@@ -739,7 +822,7 @@ func (j *c14Judge) judge(r *c14Rule) (class string, nontrivial bool) {
 			}
 		}
 	}
-	pm := "U"
+	pm := int64(0)
 	if j.pod.Mem != nil {
 		v := *j.pod.Mem
 		if memUnlBy >= 0 {
@@ -754,7 +837,7 @@ func (j *c14Judge) judge(r *c14Rule) (class string, nontrivial bool) {
 			}
 		} else {
 			j.cnt[kPodMemLimited]++
-			pm = "L"
+			pm = 1
 			if v != sumMem {
 				primaryMemBad = true
 				if v == c14Unl {
@@ -807,11 +890,12 @@ func (j *c14Judge) judge(r *c14Rule) (class string, nontrivial bool) {
 				if inexact {
 					j.cnt[kRelQuotaSumInexact]++
 				}
-				// band: every value is within one unit of its exact target (n containers + the pod itself), and the
-				// minimum clamp can only have raised containers: sum - lifts - (n+1) <= pod <= sum + (n+1)
-				band := int64(n + 1)
+				// band: every value is within one rounding unit of its exact target (n containers + the pod itself),
+				// and the minimum clamp can only have raised containers:
+				//   sum - lifts - (n+1)*unit <= pod <= sum + (n+1)*unit
+				band := int64(n+1) * k.roundingUnit()
 				if !r.divides() {
-					band = 0 // period*milli/1000 is exact for the standard period; kept general below
+					band = 0 // milli*period/1000 is exact when the period is a multiple of 1000
 					if k.period%1000 != 0 {
 						band = int64(n + 1)
 					}
@@ -881,9 +965,12 @@ func (j *c14Judge) judge(r *c14Rule) (class string, nontrivial bool) {
 			j.violate("rel|pod-shares-vs-sum", fmt.Sprintf("pod cpu shares %d are not the sum of the container shares %d within [%d, %d] (rounding units + clamps)", pv, sum, lo, hi))
 		}
 	}
-	sort.Strings(ctrCls)
-	fmt.Fprintf(&cls, "|pod:s%s,q%s,m%s|%s", c14P(j.pod.Shares), pq, pm, strings.Join(ctrCls, ";"))
-	return cls.String(), true
+	sort.Slice(ctrCls, func(a, b int) bool { return ctrCls[a] < ctrCls[b] })
+	cls = c14Mix(cls, int64(n), c14V(j.pod.Shares), pq, pm)
+	for _, cc := range ctrCls {
+		cls = c14Mix(cls, int64(cc))
+	}
+	return cls, true
 }
 
 // ---------------------------------------------------------------------------------------------------------------
@@ -913,6 +1000,12 @@ type c14Part struct {
 	paths []string
 	// freshCtx: contexts are rebuilt (annotation decoded again) for every rule configuration instead of once per pod
 	freshCtx bool
+	// multiset: only lists with non-decreasing container codes are executed, i.e. every list modulo the order of
+	// its containers (the containers of a pod reach the hooks as a map keyed by the container name)
+	multiset bool
+	// fastPatch: the webhook's JSON patch is applied directly when it only touches metadata.annotations (what the
+	// extended-resource-spec step produces) instead of through the generic JSON patch library + a pod decode
+	fastPatch bool
 }
 
 type c14Worker struct {
@@ -933,7 +1026,7 @@ func c14RunList(res *mc.Result, l *mc.Local, ds *mc.DistinctSet, k c14Consts, w 
 		base := c14Case{Ctrs: ctrs, Mark: mark}
 		var admitted *corev1.Pod
 		var err error
-		if ps := mc.Guard(func() { admitted, err = w.wh.admit(c14Pod(ctrs, mark)) }); ps != "" || err != nil {
+		if ps := mc.Guard(func() { admitted, err = w.wh.admit(c14Pod(ctrs, mark), part.fastPatch) }); ps != "" || err != nil {
 			// the webhook is outside the anchored mechanism; a failure here is a broken harness assumption
 			res.Violate(mc.Violation{Key: "C14|harness|webhook-failed", What: fmt.Sprintf("the mutating webhook failed on %s: %v %s", base, err, ps), Replay: base})
 			continue
@@ -966,9 +1059,7 @@ func c14RunList(res *mc.Result, l *mc.Local, ds *mc.DistinctSet, k c14Consts, w 
 				}
 				cls, nontrivial := j.judge(r)
 				if nontrivial && j.nv == 0 {
-					h := fnv.New64a()
-					h.Write([]byte(cls))
-					ds.AddHash(h.Sum64())
+					ds.AddHash(cls)
 				}
 			}
 		}
@@ -979,7 +1070,7 @@ func c14Replay(t *testing.T, k c14Consts, rules []*c14Rule, c c14Case) {
 	res := mc.NewResult("C14", "replay", "enumeration")
 	var cnt [kNumCounters]int64
 	wh := c14NewWebhook()
-	admitted, err := wh.admit(c14Pod(c.Ctrs, c.Mark))
+	admitted, err := wh.admit(c14Pod(c.Ctrs, c.Mark), false)
 	if err != nil {
 		t.Fatalf("webhook: %v", err)
 	}
@@ -1032,22 +1123,26 @@ func TestVerifC14Batch(t *testing.T) {
 		mem: []int64{A, 0, 1, 4096, 1 << 30, 1 << 40},
 	}
 	small := c14Alpha{
-		req: []int64{A, 0, 3, 1000, 10000000},
-		lim: []int64{A, 0, 1, 15, 1000, 64000},
-		mem: []int64{A, 0, 4096, 1 << 40},
+		req: []int64{A, 0, 3, 10000000},
+		lim: []int64{A, 0, 1, 15, 1000},
+		mem: []int64{A, 0, 4096},
 	}
 	allMarks := []string{c14MarkLabelBE, c14MarkAnnoBE, c14MarkLabelLS, c14MarkNone}
 	bothPaths := []string{c14PathProxy, c14PathRecon}
+	// small parts first: under a time budget the later (larger) parts are the ones that get capped
 	parts := []*c14Part{
 		{name: "n1", n: 1, alpha: ext, marks: allMarks, paths: bothPaths, freshCtx: true},
-		{name: "n2", n: 2, alpha: mid, marks: allMarks, paths: bothPaths, freshCtx: !env.Thorough()},
+		{name: "n2-small", n: 2, alpha: small, marks: allMarks, paths: bothPaths, freshCtx: true},
 	}
 	if env.Thorough() {
 		parts = append(parts,
 			&c14Part{name: "n3-small", n: 3, alpha: small, marks: allMarks, paths: bothPaths},
-			&c14Part{name: "n3", n: 3, alpha: design, marks: []string{c14MarkLabelBE}, paths: []string{c14PathProxy}})
+			&c14Part{name: "n2", n: 2, alpha: mid, marks: allMarks, paths: bothPaths},
+			&c14Part{name: "n3-multiset", n: 3, alpha: design, marks: []string{c14MarkLabelBE}, paths: []string{c14PathProxy}, multiset: true, fastPatch: true})
 	} else {
-		parts = append(parts, &c14Part{name: "n3-small", n: 3, alpha: small, marks: []string{c14MarkLabelBE, c14MarkNone}, paths: bothPaths})
+		parts = append(parts,
+			&c14Part{name: "n3-small", n: 3, alpha: small, marks: []string{c14MarkLabelBE, c14MarkNone}, paths: bothPaths},
+			&c14Part{name: "n2", n: 2, alpha: mid, marks: allMarks, paths: bothPaths})
 	}
 	workers := make([]*c14Worker, env.Workers)
 	for i := range workers {
@@ -1064,6 +1159,14 @@ func TestVerifC14Batch(t *testing.T) {
 		rx := mc.Radix{Dims: dims}
 		done, complete := env.ParallelRangeL(res, rx.Size(), func(l *mc.Local, i int64) {
 			d := rx.Decode(i, make([]int, 0, 4))
+			if part.multiset {
+				for x := 1; x < len(d); x++ {
+					if d[x] < d[x-1] {
+						return
+					}
+				}
+				l.Count("container_multisets", 1)
+			}
 			ctrs := make([]c14Ctr, part.n)
 			for x := range d {
 				ctrs[x] = part.alpha.decode(d[x])
@@ -1080,7 +1183,11 @@ func TestVerifC14Batch(t *testing.T) {
 		for _, r := range rules {
 			rn = append(rn, r.Name)
 		}
-		res.Rule = fmt.Sprintf("every ordered list of %d containers over batch-cpu request%v x batch-cpu limit%v x batch-memory limit%v (-1 = not declared), "+
+		lists := "every ordered list"
+		if part.multiset {
+			lists = "every list modulo the order of its containers (non-decreasing codes)"
+		}
+		res.Rule = fmt.Sprintf(lists+" of %d containers over batch-cpu request%v x batch-cpu limit%v x batch-memory limit%v (-1 = not declared), "+
 			"x QoS marking %v x context path %v x rule %v; each pod goes through the real mutating webhook (CREATE) before the contexts are built; "+
 			"one evaluation = one (pod, marking, path, rule) executed on the hooks and judged; non-trivial = best-effort pod with at least one declared batch amount; "+
 			"distinct = distinct outcome classes (marking, path, rule, pod shares value and quota/memory class, sorted per-container shares value and quota/memory class) among the non-trivial runs without violation",
